@@ -25,11 +25,25 @@ class OtherError(Exception):
     pass
 
 
+class FalsyError(Exception):
+    """an exception object that is falsy (like pypyr.errors.MultiError without sub-errors: it has a length)"""
+
+    def __len__(self):
+        return 0
+
+
 def _cls(name):
     if name == 'vprobe.ProbeError':
         return ProbeError
     if name == 'vprobe.OtherError':
         return OtherError
+    if name == 'vprobe.FalsyError':
+        return FalsyError
+    mod, _, cls = name.rpartition('.')
+    if mod:
+        # an error class of some other top-level module next to this one (built.py, main.py)
+        import importlib
+        return getattr(importlib.import_module(mod), cls)
     return getattr(builtins, name)
 
 
